@@ -250,6 +250,10 @@ def handle1 : Handler := fun op args =>
   | "bip32_hist", [n, calls] => do
     let calls ← parseList? parseCall? calls
     withNode n fun n => "ok " ++ ";".intercalate ((subkeyRun gen fuel n [] calls).map showItem)
+  -- the same history after `node.fingerprint(is_compressed=False)` was asked of the object first (the model keeps no memo)
+  | "bip32_hist_fpu", [n, calls] => do
+    let calls ← parseList? parseCall? calls
+    withNode n fun n => "ok " ++ ";".intercalate ((subkeyRun gen fuel n [] calls).map showItem)
   | "bip32_pathhist", [n, paths] => do
     let paths ← parseList? textOf? paths
     withNode n fun n => "ok " ++ ";".intercalate ((pathRun gen fuel n [] paths).map showItem)
